@@ -20,6 +20,8 @@ CFG = {
     },
     'raise': ['(anonymous namespace)::int_error'],
     'extern': {'std::swap': 'VERIF_SWAP'},
+    'arith_hooks': {f: {'*|unsigned long': 'verif_umul64', '/|unsigned long': 'verif_udiv64',
+                        '%|unsigned long': 'verif_urem64'} for f in ('mpz_mul', 'mpz_div', 'mpz_mod')},
 }
 ROOTS = ['_Zlt9mpz_classS_', '_Zeq9mpz_classS_', '_Zle9mpz_classS_', '_Zgt9mpz_classS_',
          '_Zge9mpz_classS_', '_Zne9mpz_classS_', '_Zng9mpz_class', '_Zpl9mpz_classS_',
@@ -29,7 +31,7 @@ INPUTS = ['a_u', 'a_s', 'b_u', 'b_s', 'a_i']
 
 
 def jobs(tier):
-    src = [os.path.join(HERE, 'harness.c'), os.path.join(OUT, 'int_bodies.c')]
+    src = [os.path.join(HERE, 'harness.c'), os.path.join(HERE, 'prims.c'), os.path.join(OUT, 'int_bodies.c')]
     inc = [OUT, os.path.join(vlib.VERIF, 'props'), HERE]
     J = []
     def add(name, harness, enforce, replace=(), **kw):
@@ -41,6 +43,15 @@ def jobs(tier):
     add('neg', 'h_neg', 'mpz_neg', timeout=300)
     add('add', 'h_add', 'mpz_add', replace=['mpz_sub', 'mpz_neg'], timeout=900)
     add('sub', 'h_sub', 'mpz_sub', replace=['mpz_add', 'mpz_neg', 'mpz_lt', 'mpz_from_int'], timeout=900)
+    prims = ['verif_umul64', 'verif_udiv64', 'verif_urem64']
+    for f in prims:
+        add('prim_' + f[6:], 'h_' + f[6:], f, backend='cvc5-int', kind='lemma', timeout=600,
+            cbmc_args=['--no-pointer-check', '--no-bounds-check'] if False else [],
+            note='arithmetic lemmas about the machine operator, MULLO/MULHI/UDIV/UREM concrete')
+    arith = ['mpz_neg', 'mpz_add', 'mpz_sub', 'mpz_lt', 'mpz_from_int']
+    add('mul', 'h_mul', 'mpz_mul', replace=arith + prims, defines=['SPEC_ABSTRACT'], timeout=900)
+    add('div', 'h_div', 'mpz_div', replace=arith + prims + ['mpz_mul'], defines=['SPEC_ABSTRACT'], timeout=900, cbmc_args=['--object-bits', '10'])
+    add('mod', 'h_mod', 'mpz_mod', replace=arith + prims + ['mpz_mul', 'mpz_div'], defines=['SPEC_ABSTRACT'], timeout=900, cbmc_args=['--object-bits', '10'])
     add('term_add', 'h_term_add', None, unwind=4, timeout=900, kind='proof', cbmc_args=['--object-bits', '12'],
         note='termination of add/sub mutual recursion: recursion unwinding assertion at depth 4, fully symbolic operands')
     add('control', 'h_control', None, replace=['mpz_add'], defines=['VERIF_CONTROL'], expect='fail',
@@ -86,13 +97,15 @@ def prepare(tier):
 
 def build_native():
     exe = os.path.join(OUT, 'native_driver')
-    vlib.native(['gcc', '-O1', '-c', '-I' + OUT, '-I' + os.path.join(vlib.VERIF, 'props'),
+    vlib.native(['gcc', '-O1', '-Werror=implicit-function-declaration', '-c', '-I' + OUT, '-I' + os.path.join(vlib.VERIF, 'props'),
                  os.path.join(OUT, 'int_bodies.c'), '-o', os.path.join(OUT, 'int_bodies.o')])
+    vlib.native(['gcc', '-O1', '-Werror=implicit-function-declaration', '-c', '-I' + OUT, '-I' + os.path.join(vlib.VERIF, 'props'), '-DVERIF_NATIVE',
+                 os.path.join(HERE, 'prims.c'), '-o', os.path.join(OUT, 'prims.o')])
     vlib.native(['g++', '-std=c++14', '-O2', '-DNDEBUG', '-I%s/libzwerg' % vlib.REPO, '-c',
                  os.path.join(vlib.REPO, 'libzwerg/int.cc'), '-o', os.path.join(OUT, 'int_real.o')])
     vlib.native(['g++', '-std=c++14', '-O1', '-I%s/libzwerg' % vlib.REPO,
                  os.path.join(HERE, 'native_driver.cc'), os.path.join(OUT, 'int_real.o'),
-                 os.path.join(OUT, 'int_bodies.o'), '-o', exe])
+                 os.path.join(OUT, 'int_bodies.o'), os.path.join(OUT, 'prims.o'), '-o', exe])
     return exe
 
 
@@ -169,4 +182,20 @@ def replay(r):
     if op is None or not r.cex:
         return {'reproduced': False, 'note': 'no operator-level counterexample for this job'}
     c = parse_cex(r.cex)
-    return replay_input(op, c.get('a_u', 0), c.get('a_s', 0), c.get('b_u', 0), c.get('b_s', 0))
+    rep = replay_input(op, c.get('a_u', 0), c.get('a_s', 0), c.get('b_u', 0), c.get('b_s', 0))
+    if rep.get('reproduced') or 'SPEC_ABSTRACT' not in r.job.defines:
+        return rep
+    # The job left MULLO/MULHI/UDIV/UREM uninterpreted, so the verifier's counterexample may use an
+    # interpretation no machine has.  Look for a concrete failing input of this operator on the real
+    # code (boundary lattice + random, exact 128-bit oracle).
+    exe = os.path.join(OUT, 'native_driver')
+    rc, out, err, w = vlib.run([exe, 'sweep', '1', '2000000'], timeout=300)
+    for ln in out.split('\n'):
+        if ln.startswith('MISMATCH ' + op + ' '):
+            kv = dict(x.split('=') for x in ln.split()[2:6])
+            rep2 = replay_input(op, int(kv['a_u']), int(kv['a_s']), int(kv['b_u']), int(kv['b_s']))
+            rep2['note'] = ('verifier counterexample (abstract arithmetic) did not reproduce: %s; this input was '
+                            'found by the native oracle sweep' % json.dumps(c))
+            return rep2
+    rep['note'] = 'abstract counterexample did not reproduce and the native oracle sweep found no failing input'
+    return rep
